@@ -346,6 +346,27 @@ def shard_odd(shard):
     return st.result([drv])
 
 
+def shard_ctxflags(shard):
+    flagsets, deadline = shard
+    drv = get_driver('asan')
+    drv.define_schema('KS', KS.spec())
+    st = ShardStats('context flag bits')
+    texts = ODD_TEXTS + [b'b = z', b'a = {1,2} e t { n = 2 }', b'c { k = v }', b'k = v', b'k = v b = z', b'e t { k = v }', b'x { r = {q} }', b'u { } b = 1',
+                         b'f(1)', b'include("nope")']
+    for fl in flagsets:
+        cases = [robust_case('KS', fl, t, None, quiet=True) for t in texts]
+        for c, r in zip(cases, drv.run(cases)):
+            judge_robust(st, 'KS', c, r, None)
+            st.transitions += 1
+        st.nontriv(fl)
+        if time.time() > deadline:
+            st.complete = False
+            break
+    if not st.samples:
+        st.samples.append({'context_flags': flagsets[:4], 'texts': len(texts)})
+    return st.result([drv])
+
+
 def shapes(nmax):
     sizes = [n for n in (1, 2, 10, 100, 1000, 10000, 100000) if n <= nmax]
     bounds = [31, 32, 33, 63, 64, 65, 8191, 8192, 8193, 16383, 16384, 16385]
@@ -557,6 +578,10 @@ def main():
     odd = [(k, m) for k in ODD_KINDS for m in range(1 << len(ODD_FLAGS))]
     engine.phase(ck, 'every subset of 9 option flags on every option kind (meaningful or not) x 4 context flag sets x %d texts' % len(ODD_TEXTS), shard_odd,
                  [(list(c), dl) for c in engine.chunks(odd, 28)], schemas=len(odd))
+    # "any flags": every set of up to three of the fourteen flag bits handed to cfg_init, including the ones meant for options
+    ctxsets = [f for f in range(1 << 14) if bin(f).count('1') <= (3 if quick else 5)]
+    engine.phase(ck, 'every set of <= %d of the 14 flag bits as context flags' % (3 if quick else 5), shard_ctxflags,
+                 [(list(c), dl) for c in engine.chunks(ctxsets, 16)], flagsets=len(ctxsets))
     # (a) byte strings
     def buf_strings(length):
         shards = []
